@@ -486,10 +486,21 @@ func runAdmission(b batchDesc) {
 				rep.Count("admission:no_record_noerror_not_stored(open_case)", 1)
 			} else if dumpT < e.r1.T0+C*sec-sec {
 				rep.Count("admission:storable_but_not_stored(allowed)", 1)
-				stats.mu.Lock()
-				stats.expectedHits++
-				stats.unexpectedMiss++
-				stats.mu.Unlock()
+				// for the vacuity guard only entries count whose presence every reading of the
+				// statement guarantees: a negative answer "lives at most" its limit, so one that
+				// carries records may legitimately be gone once its own smallest TTL has run out
+				G := C
+				if cls != "noerror" {
+					if m, ok := e.Spec.minTTL(); ok && int64(m) < G {
+						G = int64(m)
+					}
+				}
+				if dumpT < e.r1.T0+G*sec-sec {
+					stats.mu.Lock()
+					stats.expectedHits++
+					stats.unexpectedMiss++
+					stats.mu.Unlock()
+				}
 			}
 		default:
 			rep.Count("admission:stored_"+cls, 1)
